@@ -61,6 +61,14 @@ def check_case(case, stats=None):
         if stats:
             stats.counters['excluded_known_shape_join_retrigger'] += 1
         return []
+    if case.get('salt', 0) % 3 == 0 and not case.get('no_warm'):
+        # one case in three: an earlier execution of the same definition has
+        # already run to its end in the same database (same task names, all
+        # finished): prerequisites are per execution
+        case = dict(case)
+        case['warm'] = {'input': case.get('input')}
+        if stats is not None:
+            stats.tags['after_earlier_execution_of_same_definition'] += 1
     res = enginerun.run_case(case, observe_each=True)
     if res.start_error is not None or not res.quiescent:
         if stats:
